@@ -22,6 +22,12 @@ def run(ctx):
     chk, fx = ctx.chk, ctx.facts
     chk.explanation = EXPLANATION
     chk.assumptions += ["quick-xml: Attribute::unescape_value resolves entities; read_text does not (raw slice)"]
+    selection_rules(chk, fx)
+
+
+def selection_rules(chk, fx):
+    """Which statements of the running configuration are candidates (shared: C01 records the same decision — a statement that is no
+    longer marked as managed must drop out of the candidates for compare to delete it)."""
     t = fx.thir_body(READ_CAND)
     chk.analysed(t["def"])
     paths = A.Interp(fx, crates=(AGENT,), max_paths=6000).explore(READ_CAND)
